@@ -113,6 +113,21 @@ def boot():
 
     registry.library
     registry.settings
+    # Warm the *compile* path only (Django's lazily compiled regexes, parser lru_caches); nothing is rendered,
+    # so the per-render registries and caches of the library are untouched.
+    from django.template import Template
+
+    Template(
+        '{% load component_tags %}{% component "warm" a=b c="d" only %}{% fill "x" data="d" default="e" %}'
+        '{{ v|vf:"s"|default:"z" }}{% endfill %}{% for i in l %}{% fill name=i %}{% endfill %}{% endfor %}'
+        '{% endcomponent %}{% component "warm" / %}{% slot "x" default required k=v %}{% endslot %}{% slot "y" / %}'
+        '{% provide "k" a=b %}{% if a %}{% else %}{% endif %}{% with a=b %}{% endwith %}{% endprovide %}'
+        '{% vfault "s" %}{{ component_vars.is_filled.x }}{% component_js_dependencies %}'
+        '{% component_css_dependencies %}{% html_attrs attrs class="x" %}<div data-e="1"></div>'
+    )
+    import django_components.cache as _djc_cache
+
+    _djc_cache.template_cache = None
     import gc
 
     gc.collect()
